@@ -2,6 +2,7 @@ import Autd3.Drv.C09
 import Autd3.Drv.Fw
 import Autd3.Drv.C18
 import Autd3.Drv.C14
+import Autd3.Drv.C06
 /-! `autd3model <stream>`: one request line in, one answer line out. -/
 
 partial def loop {σ : Type} (h : IO.FS.Stream) (out : IO.FS.Stream) (step : σ → String → σ × String) (s : σ) : IO Unit := do
@@ -18,6 +19,7 @@ def main (args : List String) : IO UInt32 := do
   | ["silencer"] => loop stdin stdout Autd3.Drv.C09.step Autd3.Drv.C09.init; return 0
   | ["pbcodec"] => loop stdin stdout Autd3.Drv.C18.step Autd3.Drv.C18.init; return 0
   | ["wrappers"] => loop stdin stdout Autd3.Drv.C14.step Autd3.Drv.C14.init; return 0
+  | ["sampling"] | ["f32ops"] => loop stdin stdout Autd3.Drv.C06.step Autd3.Drv.C06.init; return 0
   | [s] =>
     if s.startsWith "fw_" then do loop stdin stdout Autd3.Drv.FwS.step Autd3.Drv.FwS.init; return 0
     else do IO.eprintln "unknown stream"; return 2
